@@ -371,14 +371,12 @@ func genProbe(r *lib.Rng) execSpec {
 	}
 }
 
-var prefixSeq int
-
 // prefix programs: failures at depth of every kind, limit violations, successes, commits, deployments.
 func genPrefix(r *lib.Rng) execSpec {
 	// (an abort N calls deep costs the runtime time quadratic in N: depths are kept moderate; leftovers of several
 	// failed executions accumulate in the long-lived environment)
 	d := lib.Pick(r, []int{1, 7, 40, 90, 150, 300})
-	prefixSeq++
+	prefixSeq := 1 + r.Intn(1000000)
 	k := r.Intn(24)
 	if k == 6 && !r.Chance(1, 4) {
 		k = 1 // unbounded recursion costs seconds: rare
@@ -462,9 +460,9 @@ func prefixExperiment(sum *lib.Summary, seed uint64, tier string, vm bool) {
 			return
 		}
 	}
-	nprobes, nprefixes := 32, 5
+	nprobes, nprefixes := 18, 5
 	if tier == "thorough" {
-		nprobes, nprefixes = 300, 8
+		nprobes, nprefixes = 150, 8
 	}
 	rt := runtime.NewRuntime(runtime.Config{})
 	longLived := newEnvSet(vm) // reused across ALL trials of this engine: leftovers accumulate
@@ -525,14 +523,45 @@ func prefixExperiment(sum *lib.Summary, seed uint64, tier string, vm bool) {
 				longLivedHistory = append(longLivedHistory, probe)
 			}
 			if i, x, y := firstDiff(base, got); i >= 0 {
+				// shrink the prefix: replay subsets with a new environment, keep what is needed for a difference
+				min := history
+				budget := 400
+				differs := func(h []execSpec) bool {
+					envs2 := newEnvSet(vm)
+					scratch2 := w0.clone()
+					for j, s := range h {
+						execOn(scratch2, rt, envs2, vm, s, byte(0x10+j%64))
+						budget--
+					}
+					g := execOn(w0.clone(), rt, envs2, vm, probe, 0xF0)
+					k, _, _ := firstDiff(base, g)
+					return k >= 0
+				}
+				minimized := false
+				if differs(min) {
+					minimized = true
+					for again := true; again && budget > 0; {
+						again = false
+						for j := 0; j < len(min) && budget > 0; j++ {
+							cand := append(append([]execSpec{}, min[:j]...), min[j+1:]...)
+							if differs(cand) {
+								min = cand
+								again = true
+								j--
+							}
+						}
+					}
+				}
 				var notes []string
-				for _, s := range history {
+				for _, s := range min {
 					notes = append(notes, s.Kind+": "+s.Note)
 				}
 				sum.Fail("prefix-dependent:"+diffKind(x, y),
-					fmt.Sprintf("the same %s on the same ledger (vm=%v, %s) gives a different outcome after the prefix [%s] than in a fresh environment, at trace line %d: fresh: %s  VS  after prefix: %s   probe (%s): %s",
-						probe.Kind, vm, mode, strings.Join(notes, "; "), i, clip(x), clip(y), probe.Note, clip(probe.Src+probe.Func)),
-					map[string]any{"vm": vm, "environment": mode, "prefix": history, "probe": probe,
+					fmt.Sprintf("the same %s on the same ledger (vm=%v) gives a different outcome in an Environment that executed other programs before than in a fresh one; "+
+						"probe (%s): %s %v   fresh: %s   VS after prefix: %s   (trace line %d; %s; prefix of %d program(s)%s: [%s])",
+						probe.Kind, vm, probe.Note, clip(probe.Src+probe.Func), probe.Args, clip(x), clip(y), i, mode, len(min),
+						map[bool]string{true: ", minimized", false: ""}[minimized], strings.Join(notes, "; ")),
+					map[string]any{"vm": vm, "environment": mode, "prefix": min, "prefix_minimized": minimized, "probe": probe,
 						"fresh_outcome": clipAll(base), "outcome_after_prefix": clipAll(got),
 						"how": "world = harness/c33/prefix.go buildWorld (contract P at 0x1 + setup transaction); run the prefix programs with one shared runtime.Environment (script environment for scripts, base environment for transactions / contract invocations) on a scratch copy of the world, then the probe with the same Environment objects on a fresh copy of the world; compare with the probe on a fresh copy with Context.Environment = nil"})
 			}
